@@ -36,6 +36,7 @@ func runC19(em *vEmitter, r *vRng) {
 	patterns := [][]int{
 		{}, {0}, {0, 50}, {0, 50, 100, 150}, {0, 450}, {0, 50, 450}, {0, 100, 200, 700, 750}, {0, 400, 800, 1200},
 		{0, 10, 20, 30, 40, 50, 60, 70, 80, 90, 100, 110}, {0, 150, 450, 600, 900}, {0, 700}, {0, 50, 700, 750, 1400},
+		{0, 50, 400}, {0, 50, 500}, {0, 50, 100, 450, 1100}, {0, 100, 420, 460, 1000},
 	}
 	if vThorough() {
 		for i := 0; i < 60; i++ {
@@ -57,13 +58,14 @@ func runC19(em *vEmitter, r *vRng) {
 		h := &HooksCaller{Notify: make(chan bool, 32), NewStore: make(chan string, 1), dir: hd, store: "/store/A", rateLimit: rate}
 		go h.run()
 		start := time.Now()
-		var sent []int64
+		var sent, sentAbs []int64
 		for _, off := range pat {
 			d := time.Duration(off)*time.Millisecond - time.Since(start)
 			if d > 0 {
 				time.Sleep(d)
 			}
 			sent = append(sent, int64(time.Since(start)/time.Millisecond))
+			sentAbs = append(sentAbs, time.Now().UnixNano())
 			h.Notify <- true
 		}
 		time.Sleep(2*rate + 150*time.Millisecond)
@@ -109,8 +111,23 @@ func runC19(em *vEmitter, r *vRng) {
 				viol = "hook started with wrong arguments / environment: " + l
 			}
 		}
+		// coverage: every notification is followed by the start of a hook round at or after it
+		uncovered := 0
+		for _, ts := range sentAbs {
+			cov := false
+			for _, l := range lines {
+				var hs int64
+				fmt.Sscanf(strings.SplitN(l, "|", 2)[0], "%d", &hs)
+				if hs >= ts {
+					cov = true
+				}
+			}
+			if !cov {
+				uncovered++
+			}
+		}
 		c := vCase{Prop: "C19", Kind: "timing", Class: fmt.Sprintf("timing/%d-notifications", len(pat)), Nontrivial: len(pat) > 0,
-			Coq:   fmt.Sprintf("Timing %s %d %s", cList(evs), len(lines), cB(ambiguous)),
+			Coq:   fmt.Sprintf("Timing %s %d %s %d", cList(evs), len(lines), cB(ambiguous), uncovered),
 			Human: map[string]interface{}{"offsets_ms": pat, "sent_ms": sent, "rounds": len(lines), "events": evs, "ambiguous": ambiguous}}
 		if viol != "" {
 			c.Violation = viol
